@@ -3,7 +3,7 @@
 # Applies the patch to a scratch copy of /repo's working tree (outside /repo and /verif),
 # runs the named checks against the copy and removes it.
 set -u
-export GOFLAGS=-mod=mod GOPROXY=off GOSUMDB=off GOTOOLCHAIN=local GOWORK=off
+export GOFLAGS="-mod=mod -trimpath" GOPROXY=off GOSUMDB=off GOTOOLCHAIN=local GOWORK=off
 patch=$(readlink -f "$1"); shift
 runtests=0
 if [ "${1:-}" = "-t" ]; then runtests=1; shift; fi
